@@ -250,10 +250,17 @@ Section Binding.
     aset "flow_hierarchy_position" (r_hier R)
       (aset "source_head_uid" (r_head_uid R) (aset "source_flow_instance_uid" (r_source_uid R) a2)).
 
-  (* the arguments of the caller's `match FlowStarted(...)` (same Spec.arguments, without
-     `activated` and without the keys slide adds) *)
-  Definition started_pattern (R : reserved) (evargs : ctx) : ctx :=
-    aset "flow_instance_uid" (r_instance_uid R) (aset "flow_id" (r_flow_id R) evargs).
+  (* the arguments of the caller's `match FlowStarted(...)`.
+     [with_args] = true: the source passes the complete call-argument dict (flow_id,
+     flow_instance_uid AND every call argument; without `activated` and without the keys slide
+     adds); false: exactly {flow_id, flow_instance_uid}.  Which one the current source does is
+     read by translator/gen_c08.py (Gen/C08Consts.v).  [evargs] are the call arguments as
+     evaluated WHEN THE EVENT ARRIVES (get_event_from_element evaluates a match pattern at
+     matching time), which need not be the values sent with StartFlow. *)
+  Definition started_pattern (with_args : bool) (R : reserved) (evargs : ctx) : ctx :=
+    if with_args
+    then aset "flow_instance_uid" (r_instance_uid R) (aset "flow_id" (r_flow_id R) evargs)
+    else [("flow_id", r_flow_id R); ("flow_instance_uid", r_instance_uid R)].
 
   (* FlowState._create_out_event *)
   Definition out_event_args (uid flow_id : value) (args : ctx) (extra : ctx) : ctx :=
